@@ -177,7 +177,7 @@ Qed.
 (* ---------- WHERE = the same query over only the matching points ---------- *)
 Definition without_where (q:query) : query :=
   {| q_fields := q_fields q; q_groupby := q_groupby q; q_period := q_period q; q_asof := q_asof q;
-     q_until := q_until q; q_where := None; q_now := q_now q |}.
+     q_until := q_until q; q_where := None; q_now := q_now q; q_vis := q_vis q; q_limit := q_limit q |}.
 
 Lemma contributes_where : forall T q p,
   contributes T q p = if flag (q_where q) p then contributes T (without_where q) p else None.
